@@ -44,6 +44,8 @@ type shutdownContext struct {
 	shuttingDownMutex  sync.Mutex
 	shuttingDown       bool
 	agentsAwaitingExit map[string]*core.ExternalAgent
+	// agentsAwaitingExit is written by the shutdown sequence and read by the events watcher goroutine
+	agentsAwaitingExitMutex sync.Mutex
 	// Adding a mutex around runtimeDomainExited because there may be concurrent reads/writes.
 	// The first reason this can be caused is by different go routines reading/writing different keys.
 	// The second reason this can be caused is between the code shutting down the runtime/extensions and
@@ -82,7 +84,9 @@ func (s *shutdownContext) setShuttingDown(value bool) {
 func (s *shutdownContext) handleProcessExit(termination supvmodel.ProcessTermination) {
 
 	name := *termination.Name
+	s.agentsAwaitingExitMutex.Lock()
 	agent, found := s.agentsAwaitingExit[name]
+	s.agentsAwaitingExitMutex.Unlock()
 
 	// If it is an agent registered to receive a shutdown event.
 	if found {
@@ -233,7 +237,9 @@ func (s *shutdownContext) shutdownAgents(execCtx *rapidContext, start time.Time,
 	var wg sync.WaitGroup
 
 	// clear agentsAwaitingExit from last shutdownAgents
+	s.agentsAwaitingExitMutex.Lock()
 	s.agentsAwaitingExit = make(map[string]*core.ExternalAgent)
+	s.agentsAwaitingExitMutex.Unlock()
 
 	for _, a := range execCtx.registrationService.GetExternalAgents() {
 		name := fmt.Sprintf("extension-%s-%d", a.Name, execCtx.runtimeDomainGeneration)
@@ -248,7 +254,9 @@ func (s *shutdownContext) shutdownAgents(execCtx *rapidContext, start time.Time,
 
 		if a.IsSubscribed(core.ShutdownEvent) {
 			log.Debugf("Agent %s is registered for the shutdown event.", a)
+			s.agentsAwaitingExitMutex.Lock()
 			s.agentsAwaitingExit[name] = a
+			s.agentsAwaitingExitMutex.Unlock()
 
 			go func(name string, agent *core.ExternalAgent) {
 				defer wg.Done()
@@ -354,7 +362,9 @@ func (s *shutdownContext) shutdown(execCtx *rapidContext, deadlineNs int64, reas
 		s.shutdownRuntime(execCtx, start, runtimeDeadline)
 		s.shutdownAgents(execCtx, start, agentsDeadline, reason)
 
+		s.agentsAwaitingExitMutex.Lock()
 		runtimeDomainProfiler.NumAgentsRegisteredForShutdown = len(s.agentsAwaitingExit)
+		s.agentsAwaitingExitMutex.Unlock()
 	}
 
 	log.Info("Waiting for runtime domain processes termination")
